@@ -223,28 +223,81 @@ let spec_val (t : ty) (d : dm) : string option =
      | None -> Some (spec_views t v ^ "|RB=same|B=encfail|RT=-"))
 
 (* ------------------------------------------------------------------ which switches does the tree exhibit *)
-(* The unchanged tree exhibits [pinned].  A tree in which some of the defects have been repaired
-   exhibits [pinned] with those switches off: per case we look for the pinned record, the fully
-   repaired one, and every record with one or two switches turned off, and predict with the first
-   that reproduces the implementation's observation (a regression that only partly resembles a
-   finding matches none of them and is reported). *)
-let candidates (table : (string * (quirks -> bool -> quirks)) list) : quirks list =
-  let singles = List.map (fun (_, set) -> set pinned false) table in
-  let doubles = List.concat (List.mapi (fun i (_, s1) ->
-      List.filteri (fun j _ -> j > i) table |> List.map (fun (_, s2) -> s2 (s1 pinned false) false)) table) in
-  (qoff :: singles) @ doubles
+(* The unchanged tree exhibits [pinned].  Once fixes are applied some switches are off in the tree.
+   The record the tree exhibits is established once per run:
+   (1) default: [pinned] with every switch whose finding is marked "fixed" for the property in
+       known_findings.json switched off;
+   (2) evidence: on the first cases of the run (the fixed corpus comes first and holds a witness per
+       defect) a switch is voted ON when the implementation does what the specification-with-only-
+       that-switch says and not what the specification says, OFF in the opposite case; any ON vote
+       wins (a defect that still occurs somewhere is present), else any OFF vote, else the default.
+   Per case the prediction is made with that record; if it does not reproduce the observation,
+   records differing from it in one or two switches are tried (a regression that only partly
+   resembles a finding matches none and is reported).  The classes of a deviation are a minimal set
+   of switches that must stay on to reproduce the observation, so a repaired defect is never named
+   unless it really recurs — and then its entry is "fixed", which is a violation. *)
+let is_on (q : quirks) (set : quirks -> bool -> quirks) : bool = set q false <> q
 
-let settle table (f : quirks -> string) (impl : string) : quirks option =
-  if f pinned = impl then Some pinned else List.find_opt (fun q -> f q = impl) (candidates table)
+let prop_of_op = function "val" -> "C08" | "build" -> "C09" | _ -> "C13"
 
-(* classes of a deviation: the switches that are on in [q] and matter for this case *)
-let relevant_at table (q : quirks) (f : quirks -> string) : string list =
-  let base = f q and base0 = f qoff in
-  List.filter_map (fun (name, set) ->
-      if set q false <> q && (f (set q false) <> base || f (set qoff true) <> base0) then Some name else None) table
+let read_file (path : string) : string option =
+  try let ic = open_in_bin path in
+    let n = in_channel_length ic in let s = really_input_string ic n in close_in ic; Some s
+  with _ -> None
+
+let find_from (s : string) (pat : string) (from : int) : int option =
+  let n = String.length s and m = String.length pat in
+  let rec go i = if i + m > n then None else if String.sub s i m = pat then Some i else go (i + 1) in
+  go from
+
+(* (property, class) pairs whose status starts with "fixed" *)
+let fixed_classes : (string * string) list Lazy.t = lazy (
+  match read_file "known_findings.json" with
+  | None -> []
+  | Some s ->
+    let field from name =
+      match find_from s ("\"" ^ name ^ "\": \"") from with
+      | None -> None
+      | Some i -> let st = i + String.length name + 5 in
+        (match String.index_from_opt s st '"' with
+         | Some e -> Some (String.sub s st (e - st), e) | None -> None) in
+    let rec go from acc =
+      match field from "property" with
+      | None -> acc
+      | Some (prop, e1) ->
+        (match field e1 "class", field e1 "status" with
+         | Some (cls, _), Some (status, e3) ->
+           let acc = if String.length status >= 5 && String.sub status 0 5 = "fixed" then (prop, cls) :: acc else acc in
+           go e3 acc
+         | _ -> acc) in
+    go 0 [])
+
+let default_record (prop : string) : quirks =
+  List.fold_left (fun q (name, set) ->
+      if List.mem (prop, name) (Lazy.force fixed_classes) then set q false else q)
+    pinned (quirk_table @ gen_quirk_table)
 
 let outcome (s : string) : string =
   if String.length s >= 2 && String.sub s 0 2 = "ok" then "ok" else s
+
+let toggle (q : quirks) (set : quirks -> bool -> quirks) : quirks = set q (not (is_on q set))
+
+let candidates (q0 : quirks) (table : (string * (quirks -> bool -> quirks)) list) : quirks list =
+  let singles = List.map (fun (_, set) -> toggle q0 set) table in
+  let doubles = List.concat (List.mapi (fun i (_, s1) ->
+      List.filteri (fun j _ -> j > i) table |> List.map (fun (_, s2) -> toggle (toggle q0 s1) s2)) table) in
+  (singles @ [qoff; pinned]) @ doubles
+
+let settle (q0 : quirks) table (f : quirks -> string) (impl : string) : quirks option =
+  if f q0 = impl then Some q0 else List.find_opt (fun q -> f q = impl) (candidates q0 table)
+
+(* a minimal set of switches of [q] that must stay on for [proj (f _)] to remain [proj impl] *)
+let explain table (q : quirks) (f : quirks -> string) (proj : string -> string) (impl : string) : string list =
+  let (_, acc) = List.fold_left (fun (q, acc) (name, set) ->
+      if is_on q set then
+        (if proj (f (set q false)) = proj impl then (set q false, acc) else (q, name :: acc))
+      else (q, acc)) (q, []) table in
+  List.rev acc
 
 let split_bar s = String.split_on_char '|' s
 
@@ -262,17 +315,17 @@ let component_classes (impl : string) (want : string) : string list =
 
 (* model observation and verdict for one engine: [proj] selects the part of an observation the
    property at hand judges *)
-let judge table (f : quirks -> string) (proj : string -> string) (impl : string) (want : string) : string * string =
-  match settle table f impl with
+let judge (q0 : quirks) table (f : quirks -> string) (proj : string -> string) (impl : string) (want : string) : string * string =
+  match settle q0 table f impl with
   | Some q ->
     let verdict =
       if proj impl = proj want then "ok" else
-        (match relevant_at table q (fun q -> proj (f q)) with
+        (match explain table q f proj impl with
          | [] -> "fail:" ^ String.concat "," (component_classes (proj impl) (proj want))
          | l -> "fail:" ^ String.concat "," l) in
     (f q, verdict)
   | None ->
-    (f pinned, if proj impl = proj want then "ok"
+    (f q0, if proj impl = proj want then "ok"
      else "fail:" ^ String.concat "," (component_classes (proj impl) (proj want)))
 
 let level_of = function "r" -> LRepr | _ -> LType
@@ -286,67 +339,134 @@ let strip_r (s : string) : string =
 
 let id_proj (s : string) = s
 
+type case = { id : string; op : string; t : ty; d : dm; lv : level; obs : string }
+
+type pc = Case of case | Bad of string * string
+
+let parse_case (line : string) : pc option =
+  match split_tab line with
+  | id :: op :: stext :: lvl :: _route :: vtext :: obs :: _ ->
+    (try Some (Case { id; op; t = ty_of_string stext; d = dm_of_string vtext; lv = level_of lvl; obs })
+     with Failure m -> Some (Bad (id, m)))
+  | _ -> None
+
+let split_obs (obs : string) : (string * string) option =
+  match String.index_opt obs '#' with
+  | None -> None
+  | Some i -> Some (String.sub obs 0 i, String.sub obs (i + 1) (String.length obs - i - 1))
+
+let bind_fun (c : case) : quirks -> string =
+  match c.op with
+  | "val" -> (fun q -> val_obs Bind q c.t c.d)
+  | _ -> (fun q -> build_obs Bind q c.lv c.t c.d)
+
+(* ---- evidence from the first cases of the run *)
+let votes : (string, int * int) Hashtbl.t = Hashtbl.create 32
+
+let vote name on =
+  let (a, b) = try Hashtbl.find votes name with Not_found -> (0, 0) in
+  Hashtbl.replace votes name (if on then (a + 1, b) else (a, b + 1))
+
+let gather (c : case) : unit =
+  if wf c.t then begin
+    let bind_obs = (match c.op with "both" -> (match split_obs c.obs with Some (b, _) -> Some b | None -> None)
+                                  | _ -> Some c.obs) in
+    (match bind_obs with
+     | Some ob ->
+       let f = bind_fun c in
+       let base = f qoff in
+       List.iter (fun (name, set) ->
+           let a = f (set qoff true) in
+           if a <> base then (if ob = a then vote name true else if ob = base then vote name false)) quirk_table
+     | None -> ());
+    (match c.op, split_obs c.obs with
+     | "both", Some (_, og) when gen_supported c.t ->
+       let f q = outcome (build_obs Gen q c.lv c.t c.d) in
+       let base = f qoff in
+       List.iter (fun (name, set) ->
+           let a = f (set qoff true) in
+           if a <> base then (if outcome og = a then vote name true else if outcome og = base then vote name false))
+         gen_quirk_table
+     | _ -> ())
+  end
+
+let tree_record (prop : string) : quirks =
+  List.fold_left (fun q (name, set) ->
+      match (try Hashtbl.find votes name with Not_found -> (0, 0)) with
+      | (a, _) when a > 0 -> set q true
+      | (0, b) when b > 0 -> set q false
+      | _ -> q) (default_record prop) (quirk_table @ gen_quirk_table)
+
+let process (q0 : quirks) (c : case) : unit =
+  let out model verdict =
+    print_string c.id; print_char '\t'; print_string model; print_char '\t'; print_endline verdict in
+  let t = c.t and d = c.d and lv = c.lv and obs = c.obs in
+  match c.op with
+  | "val" ->
+    let f q = val_obs Bind q t d in
+    if obs = "schemaerr" || obs = "protoerr" then out (f q0) "fail:harness_schema"
+    else if not (wf t) then out (f q0) "skip"
+    else (match spec_val t d with
+        | None -> out (f q0) "fail:generator_nonconforming"
+        | Some want ->
+          (match conforms_t t d with
+           | Some v when not (has_type t v) -> out (f q0) "fail:spec_has_type"
+           | _ -> let (m, v) = judge q0 quirk_table f id_proj obs want in out m v))
+  | "build" ->
+    let f q = build_obs Bind q lv t d in
+    if obs = "schemaerr" || obs = "protoerr" then out (f q0) "fail:harness_schema"
+    else if not (wf t) then out (f q0) "skip"
+    else let (m, v) = judge q0 quirk_table f strip_r obs (spec_build lv t d) in out m v
+  | "both" ->
+    let fb q = build_obs Bind q lv t d in
+    let fg q = build_obs Gen q lv t d in
+    if not (wf t && gen_supported t) then out (fb q0 ^ "#" ^ fg q0) "skip" else
+      (match split_obs obs with
+       | None -> out (fb q0 ^ "#" ^ fg q0)
+                   ("fail:" ^ (if obs = "nobuild" then "gen_does_not_compile" else "harness_schema"))
+       | Some (ob, og) ->
+         let want = spec_build lv t d in
+         let (mb, vb) = judge q0 quirk_table fb id_proj ob want in
+         (* the generated code's deviations are modelled up to the outcome (ok / err / panic) *)
+         let gen_unexplained () = "fail:" ^ String.concat "," (List.map (fun c -> "gen_" ^ c) (component_classes og want)) in
+         let (mg, vg) =
+           (match settle q0 gen_quirk_table fg og with
+            | Some q -> (fg q, if og = want then "ok" else
+                           (match explain gen_quirk_table q fg id_proj og with
+                            | [] -> gen_unexplained () | l -> "fail:" ^ String.concat "," l))
+            | None ->
+              if og = want then (fg q0, "ok") else
+                (match settle q0 gen_quirk_table (fun q -> outcome (fg q)) (outcome og) with
+                 | Some q ->
+                   (match explain gen_quirk_table q fg outcome og with
+                    | [] -> (fg q0, gen_unexplained ()) | l -> (fg q0, "fail:" ^ String.concat "," l))
+                 | None -> (fg q0, gen_unexplained ()))) in
+         let model = mb ^ "#" ^ mg in
+         if ob = og then out model "ok"
+         else begin
+           let cls v = if String.length v > 5 && String.sub v 0 5 = "fail:" then
+               String.split_on_char ',' (String.sub v 5 (String.length v - 5)) else [] in
+           match cls vb @ cls vg with
+           | [] -> out model "fail:engines_differ"
+           | l -> out model ("fail:" ^ String.concat "," l)
+         end)
+  | _ -> ()
+
 let () =
-  iter_lines (fun line ->
-    match split_tab line with
-    | id :: op :: stext :: lvl :: _route :: vtext :: obs :: _ ->
-      let out model verdict =
-        print_string id; print_char '\t'; print_string model; print_char '\t'; print_endline verdict in
-      (try
-        let t = ty_of_string stext in
-        let d = dm_of_string vtext in
-        let lv = level_of lvl in
-        (match op with
-         | "val" ->
-           let f q = val_obs Bind q t d in
-           if obs = "schemaerr" || obs = "protoerr" then out (f pinned) "fail:harness_schema"
-           else if not (wf t) then out (f pinned) "skip"
-           else (match spec_val t d with
-               | None -> out (f pinned) "fail:generator_nonconforming"
-               | Some want ->
-                 (match conforms_t t d with
-                  | Some v when not (has_type t v) -> out (f pinned) "fail:spec_has_type"
-                  | _ -> let (m, v) = judge quirk_table f id_proj obs want in out m v))
-         | "build" ->
-           let f q = build_obs Bind q lv t d in
-           if obs = "schemaerr" || obs = "protoerr" then out (f pinned) "fail:harness_schema"
-           else if not (wf t) then out (f pinned) "skip"
-           else let (m, v) = judge quirk_table f strip_r obs (spec_build lv t d) in out m v
-         | "both" ->
-           let fb q = build_obs Bind q lv t d in
-           let fg q = build_obs Gen q lv t d in
-           if not (wf t && gen_supported t) then out (fb pinned ^ "#" ^ fg pinned) "skip" else
-           (match String.index_opt obs '#' with
-            | None -> out (fb pinned ^ "#" ^ fg pinned)
-                        ("fail:" ^ (if obs = "nobuild" then "gen_does_not_compile" else "harness_schema"))
-            | Some i ->
-              let ob = String.sub obs 0 i and og = String.sub obs (i + 1) (String.length obs - i - 1) in
-              let want = spec_build lv t d in
-              let (mb, vb) = judge quirk_table fb id_proj ob want in
-              (* the generated code's deviations are modelled up to the outcome (ok / err / panic) *)
-              let (mg, vg) =
-                (match settle gen_quirk_table fg og with
-                 | Some q -> (fg q, if og = want then "ok" else
-                                (match relevant_at gen_quirk_table q fg with
-                                 | [] -> "fail:" ^ String.concat "," (List.map (fun c -> "gen_" ^ c) (component_classes og want))
-                                 | l -> "fail:" ^ String.concat "," l))
-                 | None ->
-                   if og = want then (fg pinned, "ok") else
-                   (match settle gen_quirk_table (fun q -> outcome (fg q)) (outcome og) with
-                    | Some q ->
-                      (match relevant_at gen_quirk_table q (fun q -> outcome (fg q)) with
-                       | [] -> (fg pinned, "fail:" ^ String.concat "," (List.map (fun c -> "gen_" ^ c) (component_classes og want)))
-                       | l -> (fg pinned, "fail:" ^ String.concat "," l))
-                    | None -> (fg pinned, "fail:" ^ String.concat "," (List.map (fun c -> "gen_" ^ c) (component_classes og want))))) in
-              let model = mb ^ "#" ^ mg in
-              if ob = og then out model "ok"
-              else begin
-                let cls v = if String.length v > 5 && String.sub v 0 5 = "fail:" then
-                    String.split_on_char ',' (String.sub v 5 (String.length v - 5)) else [] in
-                match cls vb @ cls vg with
-                | [] -> out model "fail:engines_differ"
-                | l -> out model ("fail:" ^ String.concat "," l)
-              end)
-         | _ -> ())
-      with Failure m -> out ("driver-error:" ^ m) "fail:driver_error")
-    | _ -> ())
+  (* buffer the head of the run (the corpus and the first generated schemas), establish the tree's
+     record from it, then stream *)
+  let head_max = 3000 in
+  let head = ref [] and n = ref 0 in
+  (try while !n < head_max do head := input_line stdin :: !head; incr n done with End_of_file -> ());
+  let head = List.rev !head in
+  let parsed = List.filter_map parse_case head in
+  List.iter (function Case c -> (try gather c with Failure _ -> ()) | Bad _ -> ()) parsed;
+  let prop = (match List.find_opt (function Case _ -> true | _ -> false) parsed with
+      | Some (Case c) -> prop_of_op c.op | _ -> "C08") in
+  let q0 = tree_record prop in
+  let handle = function
+    | Case c -> (try process q0 c with Failure m ->
+        print_string c.id; print_string "\tdriver-error:"; print_string m; print_endline "\tfail:driver_error")
+    | Bad (id, m) -> print_string id; print_string "\tdriver-error:"; print_string m; print_endline "\tfail:driver_error" in
+  List.iter handle parsed;
+  iter_lines (fun line -> match parse_case line with Some r -> handle r | None -> ())
